@@ -90,6 +90,53 @@ Proof.
   repeat split; try reflexivity. discriminate.
 Qed.
 
+(* the sampled range is exactly the range of times at which the run uses the currents *)
+Lemma qmax_spec a b : a <= qmax a b /\ b <= qmax a b /\ (qmax a b == a \/ qmax a b == b).
+Proof.
+  unfold qmax. destruct (Qle_bool a b) eqn:E.
+  - apply Qle_bool_iff in E. repeat split; [exact E|apply Qle_refl|right; reflexivity].
+  - assert (b < a) by (apply Qnot_le_lt; intros C; apply Qle_bool_iff in C; congruence).
+    repeat split; [apply Qle_refl|apply Qlt_le_weak; assumption|left; reflexivity].
+Qed.
+
+Theorem used_times_in_sampled_range solve skip t :
+  used_time solve skip t -> 0 <= t /\ t <= sample_tmax true solve skip.
+Proof.
+  intros [H0 H]. split; [exact H0|]. cbn [sample_tmax].
+  destruct (qmax_spec solve skip) as (A & B & _). destruct H as [H|H]; eapply Qle_trans; eassumption.
+Qed.
+
+Theorem sampled_times_are_used solve skip u :
+  0 <= u -> u <= 1 -> 0 <= solve -> 0 <= skip -> used_time solve skip (u * sample_tmax true solve skip).
+Proof.
+  intros Hu0 Hu1 Hs Hk. cbn [sample_tmax].
+  destruct (qmax_spec solve skip) as (A & B & C).
+  assert (M0 : 0 <= qmax solve skip) by (eapply Qle_trans; eassumption).
+  split; [apply Qmult_le_0_compat; assumption|].
+  assert (L : u * qmax solve skip <= qmax solve skip).
+  { setoid_replace (qmax solve skip) with (1 * qmax solve skip) at 2 by ring. apply Qmult_le_compat_r; assumption. }
+  destruct C as [C|C]; [right|left]; (eapply Qle_trans; [exact L|]); apply Qle_lteq; right; exact C.
+Qed.
+
+(* an imbalance that some sample time hits is rejected *)
+Theorem td_sampled_imbalance_rejected repaired f solve skip us u :
+  In u us -> accepts_currents (f (u * sample_tmax repaired solve skip)) = false ->
+  accepts_td f (sample_times repaired solve skip us) = false.
+Proof.
+  intros Hin Hbad. unfold accepts_td, sample_times.
+  destruct (forallb _ _) eqn:E; [|reflexivity].
+  rewrite forallb_forall in E. specialize (E (u * sample_tmax repaired solve skip)).
+  rewrite Hbad in E. symmetry. apply E. apply in_map_iff. exists u. split; [reflexivity|exact Hin].
+Qed.
+
+(* as found (samples in [0, solve_time] only): a time the thermalisation stage uses lies outside the sampled range *)
+Theorem sampled_range_as_found_refuted :
+  exists solve skip t, used_time solve skip t /\ ~ t <= sample_tmax false solve skip.
+Proof.
+  exists (1#5), 1, (1#2). split; [split; [discriminate|left; discriminate]|].
+  cbn [sample_tmax]. intros C. apply Qle_bool_iff in C. discriminate.
+Qed.
+
 (* order of events: if any check fails nothing is created *)
 Lemma run_checks_events cs : forall ev ok, run_checks cs = (ev, ok) ->
   ~ In CreateFile ev /\ ~ In MkTempDir ev /\ ~ In Run ev /\ (ok = true -> forall c, In c cs -> snd c = true).
